@@ -138,6 +138,23 @@ Qed.
 Lemma lookback_nonneg lay : 0 <= lookback lay.
 Proof. unfold lookback. destruct lay; [lia|]. pose proof (period_pos (finest (all_fields (c :: lay)))). lia. Qed.
 
+(* the clamped look-back: for a representable start, dir_start = max(0, start - P); it is representable itself and
+   never later than start *)
+Lemma dir_start_clamp lay s : lay <> [] -> 0 <= s -> dir_start lay s = Z.max 0 (s - lookback lay).
+Proof.
+  intros Hl Hs. pose proof (lookback_nonneg lay) as HP. unfold dir_start.
+  destruct lay as [|c rest]; [congruence|].
+  destruct (s =? 0) eqn:E0; [lia|]. destruct (s - lookback (c :: rest) <? 0) eqn:E1; lia.
+Qed.
+
+Lemma dir_start_range lay s : 0 <= s ->
+  0 <= dir_start lay s <= s /\ (dir_start lay s = 0 \/ dir_start lay s = s - lookback lay).
+Proof.
+  intros Hs. pose proof (lookback_nonneg lay) as HP. unfold dir_start.
+  destruct lay as [|c rest]; [cbn [lookback] in *; lia|].
+  destruct (s =? 0) eqn:E0; [lia|]. destruct (s - lookback (c :: rest) <? 0) eqn:E1; lia.
+Qed.
+
 (* ------------------------------------------------------------------ exclusion *)
 
 Lemma excluded_model_spec q f : Forall (fun '(a, b) => a <= b) (excl q) -> excluded_model q f = excluded_spec q f.
@@ -174,23 +191,19 @@ Qed.
 (* ------------------------------------------------------------------ found = selected *)
 
 Lemma found_selected lay q f :
-  no_gaps lay = true -> well_placed f -> short lay f -> valid_file f -> wf_query q -> lookback_ok lay q ->
+  no_gaps lay = true -> well_placed f -> short lay f -> valid_file f -> wf_query q ->
   found false lay q f = selected q f.
 Proof.
-  intros HG HW HS (V0 & V1 & H01) (Vq & [Hse Hemax] & Hex) HL.
+  intros HG HW HS (V0 & V1 & H01) (Vq & [Hse Hemax] & Hex).
   unfold found, selected, passes. rewrite (excluded_model_spec q f Hex).
   destruct (white_ok (white q) f); [|cbn [andb]; lia]. cbn [andb].
   destruct ((t0 f <=? qend q - 1) && (t1 f >=? qstart q)) eqn:Hov.
   - assert (Hv : visited false [] lay (dir_start lay (qstart q)) (qend q - 1) (tdir f) = true).
     { rewrite HW. unfold valid in *.
       destruct lay as [|c rest]; [reflexivity|].
-      assert (HP : 0 <= lookback (c :: rest)) by apply lookback_nonneg.
-      unfold short in HS. unfold lookback_ok in HL.
-      apply visited_true; [| | | |exact HG]; unfold valid, dir_start.
-      - destruct (qstart q =? 0) eqn:E0; lia.
-      - lia.
-      - lia.
-      - destruct (qstart q =? 0) eqn:E0; lia. }
+      destruct (dir_start_range (c :: rest) (qstart q) (proj1 Vq)) as [[D0 D1] D2].
+      unfold short in HS.
+      apply visited_true; [| | | |exact HG]; unfold valid; lia. }
     rewrite Hv. cbn [andb].
     replace ((t0 f <? qend q) && (qstart q <=? t1 f)) with true by lia. cbn [andb]. reflexivity.
   - rewrite andb_false_r. cbn [andb].
@@ -199,23 +212,20 @@ Qed.
 
 Lemma find_model_spec lay fs q :
   no_gaps lay = true -> Forall well_placed fs -> Forall (short lay) fs -> Forall valid_file fs ->
-  wf_query q -> lookback_ok lay q ->
+  wf_query q ->
   find_model lay fs q = Ok (find_spec fs q).
 Proof.
-  intros HG HW HS HV HQ HL. unfold find_model, find_gen, find_spec.
+  intros HG HW HS HV HQ. unfold find_model, find_gen, find_spec.
   pose proof HQ as (Vq & [Hse Hemax] & Hex).
   replace (qend q - 1 <? qstart q) with false by lia.
-  assert (Hds : (dir_start lay (qstart q) <? 0) = false).
-  { unfold dir_start. destruct lay as [|c rest]; [unfold valid in Vq; lia|].
-    unfold lookback_ok in HL. unfold valid in Vq. destruct (qstart q =? 0) eqn:E0; lia. }
-  rewrite Hds. f_equal. f_equal. apply filter_ext_in. intros f Hin.
+  f_equal. f_equal. apply filter_ext_in. intros f Hin.
   rewrite Forall_forall in HW, HS, HV.
   apply found_selected; auto.
 Qed.
 
 Lemma find_sound_complete_lemma lay fs q :
   no_gaps lay = true -> Forall well_placed fs -> Forall (short lay) fs -> Forall valid_file fs ->
-  wf_query q -> lookback_ok lay q ->
+  wf_query q ->
   exists l, find_model lay fs q = Ok l /\ Sorted key_rel l /\ Permutation l (filter (selected q) fs)
             /\ l = find_spec fs q.
 Proof.
@@ -270,11 +280,11 @@ Proof. intros V H. unfold wf_query, instant; cbn. unfold valid in *. repeat spli
 
 Lemma contains_agrees_lemma lay fs ex t :
   no_gaps lay = true -> Forall well_placed fs -> Forall (short lay) fs -> Forall valid_file fs ->
-  valid t -> Forall (fun '(a, b) => a <= b) ex -> lookback_ok lay (instant t ex) ->
+  valid t -> Forall (fun '(a, b) => a <= b) ex ->
   contains_model lay fs ex t = existsb (selected (instant t ex)) fs.
 Proof.
-  intros HG HW HS HV Vt Hex HL. unfold contains_model.
-  rewrite (find_model_spec lay fs (instant t ex) HG HW HS HV (instant_wf t ex Vt Hex) HL).
+  intros HG HW HS HV Vt Hex. unfold contains_model.
+  rewrite (find_model_spec lay fs (instant t ex) HG HW HS HV (instant_wf t ex Vt Hex)).
   unfold find_spec. destruct (sort_key _) as [|x l] eqn:E.
   - apply (proj1 (sort_key_nil _)) in E. apply (proj1 (filter_nil_existsb' _ _)) in E. symmetry. exact E.
   - destruct (existsb _ fs) eqn:E2; [reflexivity|]. apply (proj2 (filter_nil_existsb' _ _)) in E2. rewrite E2 in E. discriminate.
@@ -289,8 +299,7 @@ Lemma len_agrees_lemma lay fs ex :
   len_model lay fs ex = Z.of_nat (length (filter (selected (everything ex)) fs)).
 Proof.
   intros HG HW HS HV Hex. unfold len_model.
-  assert (HL : lookback_ok lay (everything ex)) by (unfold lookback_ok; destruct lay; [exact I|left; reflexivity]).
-  rewrite (find_model_spec lay fs (everything ex) HG HW HS HV (everything_wf ex Hex) HL).
+  rewrite (find_model_spec lay fs (everything ex) HG HW HS HV (everything_wf ex Hex)).
   unfold find_spec. rewrite (Permutation_length (sort_key_perm _)). reflexivity.
 Qed.
 
@@ -416,21 +425,82 @@ Proof.
   rewrite forallb_forall in H3. specialize (H3 _ Hin). cbn in H3. lia.
 Qed.
 
-Lemma lookback_okb_sound lay q : lookback_okb lay q = true -> lookback_ok lay q.
-Proof. unfold lookback_okb, lookback_ok. destruct lay; [trivial|]. lia. Qed.
-
 (* the code before fix C01_1 loses files on an input that satisfies every hypothesis *)
 Lemma find_asis_refuted_lemma : exists lay fs q,
   no_gaps lay = true /\ Forall well_placed fs /\ Forall (short lay) fs /\ Forall valid_file fs /\
-  wf_query q /\ lookback_ok lay q /\ find_asis lay fs q <> Ok (find_spec fs q).
+  wf_query q /\ find_asis lay fs q <> Ok (find_spec fs q).
 Proof.
   exists ex_lay, ex_files, ex_query.
   assert (H : hyps ex_lay ex_files = true) by (vm_compute; reflexivity).
   destruct (hyps_sound _ _ H) as (A & B & C & D).
   split; [exact A|]. split; [exact B|]. split; [exact C|]. split; [exact D|].
   split; [apply wf_queryb_sound; vm_compute; reflexivity|].
-  split; [apply lookback_okb_sound; vm_compute; reflexivity|].
   vm_compute. discriminate.
+Qed.
+
+(* ------------------------------------------------------------------ the look-back near datetime.min *)
+
+(* where the unclamped look-back is representable the code before bd49e45 is the present code ... *)
+Lemma find_noclamp_agrees lay fs q : lookback_overflows lay (qstart q) = false ->
+  find_noclamp lay fs q = find_model lay fs q.
+Proof.
+  intros H. unfold find_noclamp, find_model, find_gen. rewrite H. destruct (qend q - 1 <? qstart q); reflexivity.
+Qed.
+
+(* ... and it raises exactly for the starts strictly between datetime.min and datetime.min + P *)
+Lemma lookback_overflows_iff lay s : 0 <= s ->
+  (lookback_overflows lay s = true <-> lay <> [] /\ 0 < s < lookback lay).
+Proof.
+  intros Hs. unfold lookback_overflows. destruct lay as [|c rest].
+  - split; [discriminate|]. intros [H _]. congruence.
+  - split.
+    + intros H. split; [discriminate|]. lia.
+    + intros [_ H]. lia.
+Qed.
+
+Lemma find_noclamp_raises lay fs q : wf_query q -> lay <> [] -> 0 < qstart q < lookback lay ->
+  find_noclamp lay fs q = Err OverflowErr.
+Proof.
+  intros (Vq & [Hse Hemax] & _) Hl Hr. unfold find_noclamp.
+  replace (qend q - 1 <? qstart q) with false by lia.
+  assert (H : lookback_overflows lay (qstart q) = true) by (apply lookback_overflows_iff; [lia|tauto]).
+  rewrite H. reflexivity.
+Qed.
+
+Lemma find_noclamp_overflow_iff lay fs q : wf_query q ->
+  (find_noclamp lay fs q = Err OverflowErr <-> lay <> [] /\ 0 < qstart q < lookback lay).
+Proof.
+  intros HQ. split; [|intros [Hl Hr]; apply find_noclamp_raises; assumption].
+  pose proof HQ as (Vq & [Hse Hemax] & _). unfold valid in Vq.
+  unfold find_noclamp, find_model, find_gen. replace (qend q - 1 <? qstart q) with false by lia.
+  destruct (lookback_overflows lay (qstart q)) eqn:E; [|discriminate].
+  intros _. apply lookback_overflows_iff; [lia|exact E].
+Qed.
+
+Lemma find_noclamp_exact_lemma lay fs q : wf_query q ->
+  (find_noclamp lay fs q = Err OverflowErr <-> lay <> [] /\ 0 < qstart q < lookback lay) /\
+  (find_noclamp lay fs q <> Err OverflowErr -> find_noclamp lay fs q = find_model lay fs q).
+Proof.
+  intros HQ. split; [exact (find_noclamp_overflow_iff lay fs q HQ)|].
+  intros H. apply find_noclamp_agrees. destruct (lookback_overflows lay (qstart q)) eqn:E; [|reflexivity].
+  exfalso. apply H. apply find_noclamp_raises; [exact HQ| |];
+    apply (lookback_overflows_iff lay (qstart q)) in E; try tauto; destruct HQ as ([? _] & _); assumption.
+Qed.
+
+(* the code before bd49e45 raises OverflowError on an input that satisfies every hypothesis and for which the
+   specification (and the present algorithm) has a file *)
+Lemma lookback_overflow_asis_refuted_lemma : exists lay fs q,
+  no_gaps lay = true /\ Forall well_placed fs /\ Forall (short lay) fs /\ Forall valid_file fs /\
+  wf_query q /\ find_noclamp lay fs q = Err OverflowErr /\ find_spec fs q <> [] /\
+  find_model lay fs q = Ok (find_spec fs q).
+Proof.
+  exists ex_min_lay, ex_min_files, ex_min_query.
+  assert (H : hyps ex_min_lay ex_min_files = true) by (vm_compute; reflexivity).
+  destruct (hyps_sound _ _ H) as (A & B & C & D).
+  assert (Q : wf_query ex_min_query) by (apply wf_queryb_sound; vm_compute; reflexivity).
+  split; [exact A|]. split; [exact B|]. split; [exact C|]. split; [exact D|]. split; [exact Q|].
+  split; [vm_compute; reflexivity|]. split; [vm_compute; discriminate|].
+  apply find_model_spec; assumption.
 Qed.
 
 (* ------------------------------------------------------------------ single-file filesets *)
@@ -475,7 +545,6 @@ Lemma find_gen_stable local lay fs q l a b : find_gen local lay fs q = Ok l ->
   filter (has_key a b) l = filter (fun f => found local lay q f && has_key a b f) fs.
 Proof.
   unfold find_gen. destruct (qend q - 1 <? qstart q); [discriminate|].
-  destruct (dir_start lay (qstart q) <? 0); [discriminate|].
   intros H. injection H as <-. rewrite sort_key_stable. apply filter_filter_comm.
 Qed.
 
@@ -485,7 +554,7 @@ Proof. unfold find_spec. rewrite sort_key_stable. apply filter_filter_comm. Qed.
 
 Lemma find_sorted_stable_lemma lay fs q :
   no_gaps lay = true -> Forall well_placed fs -> Forall (short lay) fs -> Forall valid_file fs ->
-  wf_query q -> lookback_ok lay q ->
+  wf_query q ->
   exists l, find_model lay fs q = Ok l /\
     forall a b, filter (has_key a b) l = filter (fun f => selected q f && has_key a b f) fs.
 Proof.
